@@ -248,7 +248,7 @@ fn grid_plain<D: Display>(x: &D) -> Vec<(String, String)> {
 /// every spec of the grid with `#`
 fn grid_alt<D: Display>(x: &D) -> Vec<(String, String)> {
     let mut out = Vec::new();
-    grid_none!(x, out, "{:<#}", "{:^#}", "{:>#}", "{:*<#}", "{:#0}", "{:#7}", "{:<#40}", "{:#.0}", "{:#.3}", "{:*^#9.2}");
+    grid_none!(x, out, "{:#}", "{:<#}", "{:^#}", "{:>#}", "{:*<#}", "{:#0}", "{:#7}", "{:<#40}", "{:#.0}", "{:#.3}", "{:*^#9.2}");
     grid_w!(x, out, "{:#w$}", "{:<#w$}", "{:^#w$}", "{:>#w$}", "{:*<#w$}", "{:#0w$}");
     grid_p!(x, out, "{:#.p$}", "{:<#.p$}", "{:^#.p$}", "{:>#.p$}", "{:*<#.p$}", "{:#0.p$}");
     grid_wp!(x, out, "{:#w$.p$}", "{:<#w$.p$}", "{:^#w$.p$}", "{:>#w$.p$}", "{:*<#w$.p$}", "{:#0w$.p$}");
@@ -256,7 +256,10 @@ fn grid_alt<D: Display>(x: &D) -> Vec<(String, String)> {
 }
 
 fn same_as<D: Display>(what: &str, x: &D, plain: &str, acc: &mut Acc, key: u64) -> Result<(), String> {
-    for (spec, got) in grid_plain(x) {
+    // `{:#}` selects the reset form of a `Style` only; on every other renderable value (also on what
+    // `Style::render()` returns) the alternate flag is one more flag that must change nothing
+    let alt = if what == "Style" { vec![] } else { grid_alt(x) };
+    for (spec, got) in grid_plain(x).into_iter().chain(alt) {
         acc.evals += 1;
         if got != plain {
             return Err(format!(
